@@ -1014,6 +1014,17 @@ class VMDKInspector(FileInspector):
         self.vmdktype = vmdktype
 
     @property
+    def complete(self):
+        # A text-only descriptor has no structure that tells us where it
+        # ends, so we cannot claim to have all the information we need before
+        # the stream has ended. Otherwise a reader that stops as soon as we
+        # are complete (like from_file()) never shows us what follows the
+        # first read, and check_descriptor() cannot tell that there was more.
+        if not self.has_region('header') and not self._finished:
+            return False
+        return super().complete
+
+    @property
     def format_match(self):
         if self.has_region('header'):
             return self.region('header').data.startswith(b'KDMV')
